@@ -54,9 +54,19 @@ type vfC04HostPlan struct {
 	Side  string `json:"side"`  // a | b
 	K     int    `json:"k"`
 	Phase string `json:"phase"` // "" = during NewStream | connect = from the first byte of the connection (upgrade + identify)
+	// kind "gate": the remote stays healthy at connection level but never answers its StallFrom-th and later
+	// inbound streams (1 = identify, 2 = the caller's stream), and the caller's context ends while the call
+	// is blocked there
+	StallFrom int    `json:"stall_from"`
+	Ctx       string `json:"ctx"`  // cancel (1 s after the call) | deadline (5 s) | negtimeout (no deadline: the host's own)
+	Mode      string `json:"mode"` // connected (Connect first) | netdial (swarm-level dial, then NewStream at once) | fresh (no connection yet)
+	Lazy      bool   `json:"lazy"` // the caller believes the remote speaks the protocol (lazy negotiation)
 }
 
 func (p vfC04HostPlan) String() string {
+	if p.Kind == "gate" {
+		return fmt.Sprintf("gate/stall-from-%d/%s/%s/lazy=%v", p.StallFrom, p.Ctx, p.Mode, p.Lazy)
+	}
 	if p.K > 0 {
 		ph := ""
 		if p.Phase != "" {
@@ -227,42 +237,86 @@ func vfC04HostScenario(t *testing.T, plan vfC04HostPlan, tr *vfh.Trace, out *vfC
 			endOnce(o, "handler-closed")
 		}
 	})
+	gate := plan.Kind == "gate"
+	if plan.StallFrom > 0 {
+		// B stays a healthy peer at connection level (yamux keep-alives are answered) but its StallFrom-th and
+		// later inbound streams are never answered: the handler only reads until the stream is reset or closed
+		orig := B.sw.StreamHandler()
+		var nIn int
+		B.sw.SetStreamHandler(func(s network.Stream) {
+			hmu.Lock()
+			nIn++
+			n := nIn
+			hmu.Unlock()
+			if n >= plan.StallFrom {
+				out.Hit = true
+				tr.Emit("note", "what", "remote-stalls-stream", "n", n)
+				io.Copy(io.Discard, s)
+				s.Reset()
+				return
+			}
+			orig(s)
+		})
+	}
 	// connect
 	led.Begin("ca", "conn", "out", "a", true)
 	led.Begin("cb", "conn", "in", "b", true)
-	ctx, cancel := context.WithTimeout(context.Background(), 30*time.Second)
-	err := A.h.Connect(ctx, peer.AddrInfo{ID: vfC04HostKeys.idB, Addrs: []ma.Multiaddr{ma.StringCast("/ip4/127.0.0.1/tcp/7002")}})
-	cancel()
-	if err != nil && plan.Phase != "connect" {
-		t.Fatalf("connect failed: %v", err)
+	addrB := []ma.Multiaddr{ma.StringCast("/ip4/127.0.0.1/tcp/7002")}
+	var err error
+	switch plan.Mode {
+	case "netdial":
+		A.h.Peerstore().AddAddrs(vfC04HostKeys.idB, addrB, peerstore.PermanentAddrTTL)
+		ctx, cancel := context.WithTimeout(context.Background(), 30*time.Second)
+		_, err = A.sw.DialPeer(ctx, vfC04HostKeys.idB)
+		cancel()
+		if err != nil {
+			t.Fatalf("swarm-level dial failed: %v", err)
+		}
+	case "fresh":
+		A.h.Peerstore().AddAddrs(vfC04HostKeys.idB, addrB, peerstore.PermanentAddrTTL)
+	default:
+		ctx, cancel := context.WithTimeout(context.Background(), 30*time.Second)
+		err = A.h.Connect(ctx, peer.AddrInfo{ID: vfC04HostKeys.idB, Addrs: addrB})
+		cancel()
+		if err != nil && plan.Phase != "connect" && !gate {
+			t.Fatalf("connect failed: %v", err)
+		}
+		synctest.Wait()
+		if plan.Phase == "connect" {
+			time.Sleep(3 * time.Minute) // identify time-outs, keep-alive of a stalled connection
+		} else {
+			time.Sleep(2 * time.Second) // identify in both directions has completed
+		}
 	}
 	synctest.Wait()
-	if plan.Phase == "connect" {
-		time.Sleep(3 * time.Minute) // identify time-outs, keep-alive of a stalled connection
-	} else {
-		time.Sleep(2 * time.Second) // identify in both directions has completed
+	connLive := map[string]bool{}
+	markConns := func(final bool) (bool, bool) {
+		upA, upB := len(A.sw.ConnsToPeer(vfC04HostKeys.idB)) == 1, len(B.sw.ConnsToPeer(vfC04HostKeys.idA)) == 1
+		for o, up := range map[string]bool{"ca": upA, "cb": upB} {
+			emu.Lock()
+			done := ended[o]
+			emu.Unlock()
+			if up && !connLive[o] && !done {
+				connLive[o] = true
+				led.Live(o)
+			} else if !up && final {
+				endOnce(o, "connect-failed")
+			}
+		}
+		return upA, upB
 	}
-	synctest.Wait()
-	upA, upB := len(A.sw.ConnsToPeer(vfC04HostKeys.idB)) == 1, len(B.sw.ConnsToPeer(vfC04HostKeys.idA)) == 1
-	if plan.Phase != "connect" && !(upA && upB) {
+	upA, upB := markConns(plan.Mode != "fresh")
+	if plan.Phase != "connect" && !gate && !(upA && upB) {
 		t.Fatalf("hosts are not connected")
-	}
-	if upA {
-		led.Live("ca")
-	} else {
-		endOnce("ca", "connect-failed")
-	}
-	if upB {
-		led.Live("cb")
-	} else {
-		endOnce("cb", "connect-failed")
 	}
 	audit := func(final bool, gor int) {
 		synctest.Wait()
 		led.Audit("a", final, vfc04.ReadUsage(A.rm), gor)
 		led.Audit("b", final, vfc04.ReadUsage(B.rm), 0)
 	}
-	audit(false, 0)
+	if plan.Mode != "netdial" && !(gate && plan.StallFrom == 1) {
+		audit(false, 0) // (not while identify's own streams, which the ledger does not know, may be in flight)
+	}
 	if endA != nil {
 		out.ConnA, out.ConnB = endA.NOps(), endB.NOps()
 	}
@@ -276,9 +330,15 @@ func vfC04HostScenario(t *testing.T, plan vfC04HostPlan, tr *vfh.Trace, out *vfC
 	default:
 		A.h.Peerstore().RemoveProtocols(vfC04HostKeys.idB, vfC04Echo) // force a real negotiation
 	}
+	if gate && plan.Lazy {
+		A.h.Peerstore().AddProtocols(vfC04HostKeys.idB, vfC04Echo)
+	}
 	var closeWG sync.WaitGroup
 	closedA := false
-	base := [2]int{endA.NOps(), endB.NOps()}
+	base := [2]int{}
+	if endA != nil {
+		base = [2]int{endA.NOps(), endB.NOps()}
+	}
 	if plan.K > 0 && plan.Phase == "" {
 		e := endA
 		if plan.Side == "b" {
@@ -303,7 +363,7 @@ func vfC04HostScenario(t *testing.T, plan vfC04HostPlan, tr *vfh.Trace, out *vfC
 	if plan.Kind == "openstream-a" || plan.Kind == "openstream-b" {
 		nStreams = 2
 	}
-	if !(upA && upB) {
+	if !(upA && upB) && plan.Mode != "fresh" {
 		nStreams = 0
 	}
 	var kept []network.Stream
@@ -314,9 +374,23 @@ func vfC04HostScenario(t *testing.T, plan vfC04HostPlan, tr *vfh.Trace, out *vfC
 		hmu.Lock()
 		pendingIn = append(pendingIn, to)
 		hmu.Unlock()
-		ctx, cancel := context.WithTimeout(context.Background(), 5*time.Second)
+		var ctx context.Context
+		var cancel context.CancelFunc
+		switch plan.Ctx {
+		case "cancel":
+			ctx, cancel = context.WithCancel(context.Background())
+			go func() { time.Sleep(time.Second); cancel() }()
+		case "negtimeout":
+			ctx, cancel = context.WithCancel(context.Background()) // no deadline: the host applies its negotiation time-out
+		default:
+			ctx, cancel = context.WithTimeout(context.Background(), 5*time.Second)
+		}
 		s, err := A.h.NewStream(ctx, vfC04HostKeys.idB, proto)
 		cancel()
+		if plan.Mode == "fresh" {
+			synctest.Wait()
+			upA, upB = markConns(false)
+		}
 		ok := err == nil
 		if ok {
 			led.Live(so)
@@ -351,6 +425,7 @@ func vfC04HostScenario(t *testing.T, plan vfC04HostPlan, tr *vfh.Trace, out *vfC
 	// let every natural timeout play out (negotiation timeout, keep-alive of a stalled connection)
 	time.Sleep(3 * time.Minute)
 	synctest.Wait()
+	upA, upB = markConns(true)
 	for i, s := range kept {
 		s.Close()
 		endOnce(fmt.Sprintf("s%d", i+1), "closed")
@@ -403,7 +478,7 @@ func vfC04HostScenario(t *testing.T, plan vfC04HostPlan, tr *vfh.Trace, out *vfC
 	synctest.Wait()
 	out.Leaked = vfc04.Census()
 	switch plan.Kind {
-	case "none", "err", "eof", "stall", "hclose":
+	case "none", "err", "eof", "stall", "hclose", "gate":
 	case "lazy":
 		out.Hit = true
 	default:
@@ -459,7 +534,7 @@ func TestVerifC04Host(t *testing.T) {
 		res.Count(1, tr.Len())
 		if out.Hit {
 			hits++
-			res.Case(fmt.Sprintf("%s|%s|%s|%s", plan.Phase, plan.Kind, plan.Side, out.Op))
+			res.Case(fmt.Sprintf("%s|%s|%s|%s|%s", plan.Phase, plan.Kind, plan.Side, out.Op, plan.String()[:min(len(plan.String()), 60)]))
 			exits["host|"+plan.Phase+"|"+plan.Kind] = true
 		}
 		if path != "" {
@@ -523,6 +598,19 @@ func TestVerifC04Host(t *testing.T) {
 					continue
 				}
 				run(vfC04HostPlan{Kind: kind, Side: side, K: k})
+			}
+		}
+	}
+	// the caller's context ends at every blocking point of Connect / NewStream while the remote, healthy at
+	// connection level, is stalled exactly there: identify never answered (the call waits in Connect's or
+	// NewStream's IdentifyWait), the caller's stream never answered (full negotiation blocks, lazy negotiation
+	// returns and the first read blocks)
+	for _, mode := range []string{"connected", "netdial", "fresh"} {
+		for _, sf := range []int{1, 2} {
+			for _, cx := range []string{"cancel", "deadline", "negtimeout"} {
+				for _, lazy := range []bool{false, true} {
+					run(vfC04HostPlan{Kind: "gate", StallFrom: sf, Ctx: cx, Mode: mode, Lazy: lazy})
+				}
 			}
 		}
 	}
